@@ -141,17 +141,19 @@ func FormatNumber(value float64, picture string, format DecimalFormat) (string, 
 	}
 
 	exponent := 0
-	if vars.MinExponentSize != 0 {
+	// Scale the magnitude of the value into the mantissa range.
+	// Zero can't be scaled (and needs no exponent).
+	if vars.MinExponentSize != 0 && value != 0 {
 
 		maxMantissa := math.Pow(10, float64(vars.ScalingFactor))
 		minMantissa := math.Pow(10, float64(vars.ScalingFactor-1))
 
-		for value < minMantissa {
+		for math.Abs(value) < minMantissa {
 			value *= 10
 			exponent--
 		}
 
-		for value > maxMantissa {
+		for math.Abs(value) > maxMantissa {
 			value /= 10
 			exponent++
 		}
